@@ -13,8 +13,17 @@ package analyzer
 //@   ensures @error-means-no-value result1 != nil ==> result0 == nil
 //@   ensures @nil-nil-only-when-latched (result0 == nil && result1 == nil) ==> (!DisableCache && globalInitErrorReported)
 
+//@ func checkerParamName
+//@   prop C14
+//@   pure
+//@   requires info != nil
+//@   ensures @key-format result == "@" ++ info.Name ++ "." ++ pname
+
 //@ func newGocritic
-//@   prop C19
+//@   prop C19 C14
+//@   loop 2 body @int-param-takes-flag-value typeIs(old(info.Params[pname].Value), "int") ==> (typeIs(info.Params[pname].Value, "int") && unbox(info.Params[pname].Value, "int") == deref(intParams["@" ++ info.Name ++ "." ++ pname]))
+//@   loop 2 body @bool-param-takes-flag-value typeIs(old(info.Params[pname].Value), "bool") ==> (typeIs(info.Params[pname].Value, "bool") && unbox(info.Params[pname].Value, "bool") == deref(boolParams["@" ++ info.Name ++ "." ++ pname]))
+//@   loop 2 body @string-param-takes-flag-value typeIs(old(info.Params[pname].Value), "string") ==> (typeIs(info.Params[pname].Value, "string") && unbox(info.Params[pname].Value, "string") == deref(stringParams["@" ++ info.Name ++ "." ++ pname]))
 //@   requires @registry-wf forall k int :: (0 <= k && k < len(registeredCheckers)) ==> wfInfo(registeredCheckers[k])
 //@   ensures @infos-non-nil result0 != nil ==> (forall m int :: (0 <= m && m < len(result0.infoList)) ==> result0.infoList[m] != nil)
 //@   nosafety the registry invariants (non-nil infos and params, one flag cell per parameter) are established by init and not restated here
